@@ -575,7 +575,7 @@ pub fn random(ctx: &Ctx, want: &str) -> Report {
 
 pub fn run(ctx: &Ctx, prop: &str) -> Report {
     let mut rep = Report::new();
-    let mut stage = |name: &str, r: Report, rep: &mut Report, t0: std::time::Instant| {
+    let stage = |name: &str, r: Report, rep: &mut Report, t0: std::time::Instant| {
         let ev = r.evaluations;
         rep.merge(r);
         rep.stages.push((name.to_string(), t0.elapsed().as_secs_f64(), ev));
